@@ -1,5 +1,5 @@
 """C17 - template variables passed to Run are the values every reference sees (DESIGN 7/C17)."""
-import json, re, shutil
+import json, re, shutil, time
 import rig
 from rig import Infra
 
@@ -46,9 +46,9 @@ PROPOSED_KNOWN = [
              "gets its own copy (predefVarIndex appends one Global per function), so a write in one is not seen in another"},
 ]
 
+CORE = ["FixedMeetsRef", "AsWrittenDeviatesOnlyIf", "UsedVarsReported"]
 THEOREMS = ["FixedMeetsRef", "AsWrittenDeviatesOnlyIf", "PkgFixLeavesOnlyCross", "DedupFixLeavesOnlyLitFirst",
             "UnitOrderIrrelevant", "UsedVarsReported"]
-SHARD = 60000
 
 
 def text(a):
@@ -77,67 +77,117 @@ def nontrivial(o):
     return len(g) >= 2 and any(r["sc"] not in ("top", "layout") for r in g)
 
 
-def judge(ctx, step, obs_path):
-    bads, r = rig.trace_judge(ctx, step, FAMS, "Trace_Globals", obs_path, timeout=1500)
-    d = rig.read_ndjson(ctx.work / step / "drift.ndjson")[0]
-    d["badids"] = rig.read_ndjson(ctx.work / step / "badids.ndjson")[0]["ids"]
-    return bads, d
+def judge(ctx, step, obs_path, drift_every=1):
+    """Run Trace_Globals over an observation file.  Returns (bad records [{k,id,sig}], drift dict)."""
+    wd = ctx.stage(step, FAMS)
+    shutil.copy(obs_path, wd / "obs.ndjson")
+    rig.write_cfg(wd / "Trace_Globals.cfg", constants={"DriftEvery": drift_every}, invariants=["Done"], postcondition="Consumed")
+    r = ctx.tlc(wd, "Trace_Globals", workers=1, timeout=1500, heap="3g")
+    if not r.ok:
+        raise Infra(f"Trace spec Trace_Globals did not complete cleanly: {wd}/Trace_Globals.out\n" + rig.tail(r.out, 30))
+    if not (wd / "bad.ndjson").exists() or not (wd / "drift.ndjson").exists():
+        raise Infra(f"Trace spec Trace_Globals wrote no bad.ndjson/drift.ndjson ({wd})")
+    return rig.read_ndjson(wd / "bad.ndjson"), rig.read_ndjson(wd / "drift.ndjson")[0]
 
 
-def model_check(ctx):
-    consts = {"MaxLen": ctx.pick(3, 4), "MaxLen2": ctx.pick(2, 3)}
-    # (1) the design-level theorems over the whole space + export of the space
+def bounds(ctx):
+    return {"MaxLen": ctx.pick(2, 3), "MaxLenLite": ctx.pick(3, 4), "MaxLen2": ctx.pick(2, 3)}
+
+
+def small_bounds(ctx):
+    return {"MaxLen": ctx.pick(2, 3), "MaxLenLite": ctx.pick(2, 3), "MaxLen2": 2}
+
+
+def diag_run(ctx, step, consts, inv):
+    wd = ctx.stage(step, FAMS)
+    rig.write_cfg(wd / "MC_Globals.cfg", constants=dict(consts, Mode="aswritten"), invariants=[inv])
+    rr = ctx.tlc(wd, "MC_Globals", workers=1, timeout=900, heap="2g")
+    if rr.invariant_violated:
+        st = re.findall(r"(?ms)^c = (.*?)(?=^\s*$|\Z)", rr.out)
+        return {"violated": True, "last_state": " ".join((st[-1] if st else "").split())[:700], "states_to_counterexample": rr.distinct}
+    if rr.ok:
+        return {"violated": False, "states": rr.distinct}
+    raise Infra(f"MC_Globals diagnostic run failed: {wd}\n" + rig.tail(rr.out, 30))
+
+
+def all_theorems_run(ctx):
+    """The six theorems (incl. each fix alone, and independence of the order functions are emitted in) on the
+    smaller space; in the thorough tier with -coverage (which actions were never taken)."""
+    consts = small_bounds(ctx)
+    wd = ctx.stage("mc_all", FAMS)
+    rig.write_cfg(wd / "MC_Globals.cfg", constants=dict(consts, Mode="all"), invariants=["AllTheorems"])
+    r = ctx.tlc(wd, "MC_Globals", workers=ctx.pick(2, 4), timeout=900, coverage=not ctx.quick, heap="3g")
+    out = {"bounds": str(consts), "states": r.distinct, "invariants": THEOREMS, "holds": bool(r.ok)}
+    if not r.ok:
+        if not r.invariant_violated:
+            raise Infra(f"MC_Globals (all theorems) failed: {wd}\n" + rig.tail(r.out, 30))
+        rig.write_cfg(wd / "MC_Globals_named.cfg", constants=dict(consts, Mode="named"), invariants=THEOREMS)
+        r3 = ctx.tlc(wd, "MC_Globals", cfg="MC_Globals_named.cfg", workers=4, timeout=900, extra=["-continue"], heap="3g")
+        out["violated"] = sorted(set(r3.invariant_violated))
+    if not ctx.quick:
+        out["actions_never_taken"] = r.coverage_zero()
+    return out
+
+
+def model_check(ctx, pool):
+    consts = bounds(ctx)
+    # diagnostics, in the background: the mechanism AS WRITTEN (and with only the package fix) against the
+    # register semantics.  A counterexample is expected while the defects are in the tree; it is the minimal
+    # witness, not a verdict.
+    fut = {"AsWrittenMeetsRef": pool.submit(diag_run, ctx, "mc_diag_a", consts, "AsWrittenMeetsRef"),
+           "OnlyPkgFixedMeetsRef": pool.submit(diag_run, ctx, "mc_diag_b", consts, "OnlyPkgFixedMeetsRef")}
+    fut["all_theorems"] = pool.submit(all_theorems_run, ctx)
+    # the design-level theorems over the whole space + export of the space
     wd = ctx.stage("mc", FAMS)
-    rig.write_cfg(wd / "MC_Globals.cfg", constants=dict(consts, Mode="theorems"), invariants=THEOREMS)
-    r = ctx.tlc(wd, "MC_Globals", workers=rig.NCPU, timeout=1500, coverage=not ctx.quick)
-    ctx.cov.update(states=r.distinct, transitions=r.generated, mc_wall_s=round(r.wall, 1), mc_invariants=THEOREMS,
-                   bounds="MaxLen(one global)=%d MaxLen2(two globals)=%d" % (consts["MaxLen"], consts["MaxLen2"]))
+    rig.write_cfg(wd / "MC_Globals.cfg", constants=dict(consts, Mode="theorems"), invariants=["CoreTheorems"])
+    r = ctx.tlc(wd, "MC_Globals", workers=max(2, rig.NCPU // 2), timeout=1500)
+    ctx.cov.update(states=r.distinct, transitions=r.generated, mc_wall_s=round(r.wall, 1), mc_invariants=CORE, bounds=str(consts))
     if not r.ok:
         if r.invariant_violated:
-            # diagnostic: the transcription (or a stated theorem about it) is off; the verdict below is from the real code
-            ctx.cov["model_theorem_violated"] = {"invariants": r.invariant_violated, "tlc_out": str(wd / "MC_Globals.out")}
+            # diagnostic: the transcription (or a stated theorem about it) is off; the verdict is from the real code.
+            # Name the theorem(s) that fail.
+            wd3 = ctx.stage("mc_named", FAMS)
+            rig.write_cfg(wd3 / "MC_Globals.cfg", constants=dict(consts, Mode="named"), invariants=CORE)
+            r3 = ctx.tlc(wd3, "MC_Globals", workers=rig.NCPU, timeout=1500, extra=["-continue"])
+            ctx.cov["model_theorem_violated"] = {"invariants": sorted(set(r3.invariant_violated)) or r.invariant_violated,
+                                                 "tlc_out": str(wd3 / "MC_Globals.out")}
         else:
             raise Infra(f"MC_Globals failed: {wd}/MC_Globals.out\n" + rig.tail(r.out, 30))
-    if not ctx.quick:
-        ctx.cov["actions_never_taken"] = r.coverage_zero()
     cases = wd / "cases.ndjson"
     if not cases.exists():
         raise Infra("no cases.ndjson exported by MC_Globals")
-    # (2) diagnostic: the mechanism AS WRITTEN against the register semantics (a counterexample is expected
-    #     while the defects are in the tree; it is the minimal witness, not a verdict)
-    wd2 = ctx.stage("mc_aswritten", FAMS)
-    rig.write_cfg(wd2 / "MC_Globals.cfg", constants=dict(consts, Mode="aswritten"), invariants=["AsWrittenMeetsRef"])
-    r2 = ctx.tlc(wd2, "MC_Globals", workers=1, timeout=900)
-    rig.write_cfg(wd2 / "MC_Globals_b.cfg", constants=dict(consts, Mode="aswritten"), invariants=["OnlyPkgFixedMeetsRef"])
-    r3 = ctx.tlc(wd2, "MC_Globals", cfg="MC_Globals_b.cfg", workers=1, timeout=900)
-    cex = {}
-    for name, rr in (("AsWrittenMeetsRef", r2), ("OnlyPkgFixedMeetsRef", r3)):
-        if rr.invariant_violated:
-            st = re.findall(r"(?ms)^c = (.*?)(?=^\s*$|\Z)", rr.out)
-            cex[name] = {"violated": True, "last_state": " ".join((st[-1] if st else "").split())[:700],
-                         "states_to_counterexample": rr.distinct}
-        elif rr.ok:
-            cex[name] = {"violated": False}
-        else:
-            raise Infra(f"MC_Globals diagnostic run failed: {wd2}\n" + rig.tail(rr.out, 30))
-    ctx.cov["model_counterexample"] = cex
-    return cases
+    return cases, fut
 
 
 def run(ctx, only_cases=None):
+    from concurrent.futures import ThreadPoolExecutor
+    pool = ThreadPoolExecutor(max_workers=max(4, rig.NCPU - 2))
+    fut = {}
+    import os
+    # many short TLC processes run side by side here: keep each JVM's GC thread pool small
+    os.environ.setdefault("JAVA_TOOL_OPTIONS", "-XX:ParallelGCThreads=3")
+    phase, tp, cp = {}, time.time(), sum(os.times()[2:4])
+
+    def mark(name):   # wall seconds / CPU seconds of child processes (TLC, driver; includes the background runs)
+        nonlocal tp, cp
+        c = sum(os.times()[2:4])
+        phase[name] = [round(time.time() - tp, 1), round(c - cp, 1)]
+        tp, cp = time.time(), c
     if only_cases is None:
-        cases = model_check(ctx)
+        cases, fut = model_check(ctx, pool)
         ncases = sum(1 for _ in open(cases))
         ctx.cov["cases_exported"] = ncases
-        if ctx.cov.get("states") and "model_theorem_violated" not in ctx.cov and ncases != ctx.cov["states"]:
+        if "model_theorem_violated" not in ctx.cov and ncases != ctx.cov["states"]:
             raise Infra(f"exported cases ({ncases}) differ from the explored state space ({ctx.cov['states']})")
     else:
         cases = ctx.work / "replay_cases.ndjson"
         rig.write_ndjson(cases, only_cases)
+    mark("model_check_and_export")
     # replay into the real code
     obs = ctx.work / "obs.ndjson"
     ctx.drive("c17", cases, obs, timeout=900)
     allobs = rig.read_ndjson(obs)
+    mark("build_driver_and_replay")
     outcomes = {}
     for o in allobs:
         outcomes[o["outcome"]] = outcomes.get(o["outcome"], 0) + 1
@@ -149,32 +199,41 @@ def run(ctx, only_cases=None):
                    exhaustive=only_cases is None,
                    by_scope={sc: sum(1 for o in allobs if any(r["sc"] == sc for r in o["refs"]))
                              for sc in ("top", "layout", "macro", "closure", "imported", "rendered", "extending", "pkgvar")})
-    # judge (sharded)
-    bads, drift, badids = [], {"aswritten": 0, "fixed": 0, "records": 0}, set()
-    for k in range(0, max(len(allobs), 1), SHARD):
-        part = allobs[k:k + SHARD]
-        p = ctx.work / f"obs_{k // SHARD}.ndjson"
+    # judge: shards in parallel TLC processes
+    nshard = max(1, min(rig.NCPU - 4, (len(allobs) + 3999) // 4000))
+    size = (len(allobs) + nshard - 1) // nshard if allobs else 1
+    drift_every = ctx.pick(4, 8) if only_cases is None else 1
+    jobs = []
+    for k in range(0, max(len(allobs), 1), size):
+        part = allobs[k:k + size]
+        p = ctx.work / f"obs_{k // size}.ndjson"
         rig.write_ndjson(p, part)
-        b, d = judge(ctx, f"trace_{k // SHARD}", p)
+        jobs.append((part, pool.submit(judge, ctx, f"trace_{k // size}", p, drift_every)))
+    allbad, drift = [], {"aswritten": 0, "fixed": 0, "records": 0}
+    for part, f in jobs:
+        b, d = f.result()
         for x in b:
             x["obs"] = part[x["k"] - 1]
-        bads += b
+        allbad += b
         for key in drift:
             drift[key] += d[key]
-        badids.update(d["badids"])
+    ctx.cov["judge_shards"] = len(jobs)
+    mark("judge")
+    badids = {b["id"] for b in allbad}
     merged = {}
-    for b in bads:   # one line per signature and shard -> one per signature
+    for b in allbad:   # one representative (the first) per signature
         key = json.dumps(b["sig"], sort_keys=True)
         if key in merged:
-            merged[key]["count"] += b["count"]
+            merged[key]["count"] += 1
         else:
-            merged[key] = b
+            merged[key] = dict(b, count=1)
     bads = list(merged.values())
-    ctx.cov["judged_bad_first_pass"] = sum(b["count"] for b in bads)
+    ctx.cov["judged_bad_first_pass"] = len(allbad)
     ctx.cov["bad_signatures_first_pass"] = len(bads)
     # which transcription predicts the real code (diagnostic)
     n = drift["records"]
-    ctx.cov["impl_model_predicts_code"] = {"as_written": n - drift["aswritten"], "with_proposed_fixes": n - drift["fixed"], "records": n}
+    ctx.cov["impl_model_predicts_code"] = {"as_written": n - drift["aswritten"], "with_proposed_fixes": n - drift["fixed"],
+                                           "records_compared": n, "every": drift_every}
     if drift["aswritten"] and drift["fixed"]:
         ctx.cov["model_drift"] = "neither transcription (as written / with the proposed fixes) predicts all observations: " \
                                  f"{drift['aswritten']} / {drift['fixed']} of {n} differ (diagnostic only)"
@@ -185,35 +244,55 @@ def run(ctx, only_cases=None):
     so = ctx.work / "sample_obs.ndjson"
     ctx.drive("c17", sc, so, args=["-files"])
     ctx.cov["samples"] = [sample(o) for o in rig.read_ndjson(so)]
-    # reproduction guard: fresh process, judged again
-    confirmed = []
+    # reproduction guard (fresh process, judged again) and sensitivity self-test (corrupted copies of accepted
+    # observations must be rejected), judged by the same Trace spec in one TLC run
+    second = []
     if bads:
         cc = ctx.work / "confirm_cases.ndjson"
         rig.write_ndjson(cc, [case_of(b["obs"]) for b in bads])
         co = ctx.work / "confirm_obs.ndjson"
         ctx.drive("c17", cc, co, args=["-files"])
-        byid = {o["id"]: o for o in rig.read_ndjson(co)}
-        b2, _ = judge(ctx, "trace_confirm", co)
-        keys2 = {json.dumps(b["sig"], sort_keys=True) for b in b2}
+        second = rig.read_ndjson(co)
+    st = selftest([o for o in allobs if o["id"] not in badids], ctx.seed)
+    if not st and only_cases is None:
+        raise Infra("sensitivity self-test: no accepted observation to corrupt")
+    confirmed = []
+    if second or st:
+        p = ctx.work / "second_obs.ndjson"
+        rig.write_ndjson(p, second + st)
+        b2, _ = judge(ctx, "trace_second", p)
+        keys2 = {json.dumps(b["sig"], sort_keys=True) for b in b2 if b["id"] < 9000000}
+        byid = {o["id"]: o for o in second}
         confirmed = [b for b in bads if json.dumps(b["sig"], sort_keys=True) in keys2]
         ctx.cov["unreproduced"] = len(bads) - len(confirmed)
         for b in confirmed:
             b["obs"] = byid.get(b["id"], b["obs"])
             b["what"] = json.dumps(sample(b["obs"]))
-    # sensitivity self-test: corrupted observations must be rejected by the same Trace spec
-    st = selftest([o for o in allobs if o["id"] not in badids], ctx.seed)
-    if st:
-        p = ctx.work / "selftest_obs.ndjson"
-        rig.write_ndjson(p, st)
-        b3, _ = judge(ctx, "trace_selftest", p)
-        rej = sum(b["count"] for b in b3)
-        ctx.cov["sensitivity_selftest"] = {"corrupted": len(st), "rejected": rej}
-        if rej < len(st):
-            raise Infra(f"sensitivity self-test failed: {len(st)} corrupted observations, only {rej} rejected")
-    elif only_cases is None:
-        raise Infra("sensitivity self-test: no accepted observation to corrupt")
+        rej = len({b["id"] for b in b2 if b["id"] >= 9000000})
+        if st:
+            ctx.cov["sensitivity_selftest"] = {"corrupted": len(st), "rejected": rej,
+                                               "clauses": ["read", "caller", "usedvars", "read-run2", "run-failed"]}
+            if rej < len(st):
+                raise Infra(f"sensitivity self-test failed: {len(st)} corrupted observations, only {rej} rejected")
+    mark("confirm_and_selftest")
+    for name, f in fut.items():
+        if name == "all_theorems":
+            res = f.result()
+            if "actions_never_taken" in res:
+                ctx.cov["actions_never_taken"] = res.pop("actions_never_taken")
+            ctx.cov["mc_all_theorems"] = res
+            if not res["holds"]:
+                ctx.cov.setdefault("model_theorem_violated", {"invariants": res.get("violated")})
+        else:
+            ctx.cov.setdefault("model_counterexample", {})[name] = f.result()
+    pool.shutdown()
+    mark("wait_for_diagnostics")
+    ctx.cov["phase_wall_s"] = phase
     if nobuild:
         raise Infra(f"{len(nobuild)} synthesised templates did not build, e.g. {json.dumps(sample(nobuild[0]))[:500]}")
+    known, _ = ctx.classify(confirmed)
+    ctx.cov["known_finding_records"] = [{"signature": k["signature"], "records": sum(b["count"] for b in lst)}
+                                        for _, (k, lst) in sorted(known.items())]
 
     def rw(rdir, b):
         (rdir / "case.json").write_text(json.dumps(case_of(b["obs"])))
